@@ -268,6 +268,7 @@ namespace pika::threads::detail {
         /// Schedule the passed thread (put it on the ready work queue)
         void schedule_work(threads::detail::thread_id_ref_type thrd, bool other_end)
         {
+            PIKA_VERIF_POST("q.push", threads::detail::get_thread_id_data(thrd), threads::detail::get_thread_id_data(thrd)->verif_word(), 2);
             ++work_items_count_.data_;
             ::pika::detail::tqmc_deb.debug(debug::detail::str<>("schedule_work"), "stealing",
                 other_end, "D", debug::detail::dec<2>(holder_->domain_index_), "Q",
